@@ -223,8 +223,14 @@ func (e *refEnc) enc(s *Shape, v *Val) {
 		e.code(s.Code)
 		e.fields(s, v)
 	case Ptr:
+		if v.Nil || len(v.L) == 0 {
+			return // only reachable for decoded values that are compared, never for generated ones
+		}
 		e.enc(s.Elem, v.L[0])
 	case Iface:
+		if v.Nil || v.Impl < 0 || len(v.L) == 0 {
+			return
+		}
 		e.enc((*s.Impls)[v.Impl], v.L[0])
 	case BigInt:
 		// 32 bytes little endian
